@@ -117,6 +117,8 @@ pub struct Session {
     pub hist: BTreeMap<u64, Vec<(u32, u32)>>,
     /// The session follows a disconnect of the same client or a server restart (C09 territory).
     pub after_crash: bool,
+    /// Entities visible to the client at the first tick at which it was authorised.
+    pub initial: Option<BTreeSet<u64>>,
     /// Known finding F20, narrowed: (entity, kind) cells whose value may have been dropped.
     /// Value: tick from which the cell is trustworthy again (u32::MAX while the dropped value is outstanding).
     pub f20_cells: BTreeMap<(u64, Kind), u32>,
@@ -165,6 +167,7 @@ impl Session {
             pred: BTreeSet::new(),
             hist: BTreeMap::new(),
             after_crash: false,
+            initial: None,
             f20_cells: BTreeMap::new(),
         }
     }
